@@ -69,4 +69,4 @@ RC.append(("np.sum(x, axis=k, dtype=int): the result is integer-valued (piecewis
            [("C14", "-", "rev", "wrong-derivative", "h:~.*dtype=int.*"), ("C14", "-", "fwd", "wrong-derivative", "h:~.*dtype=int.*")]))
 
 RC.append(("np.split with unsorted (overlapping) indices, e.g. np.split(x, [3, 1]): the VJP concatenates the pieces' cotangents and returns a gradient that is longer than the argument",
-           [("C15", "concatenate", "rev", "silently-wrong-with-option", "case:split with unsorted indices")]))
+           [("C15", "concatenate", "rev", "silently-wrong-with-option", "case_id:split_with_unsorted_indices")]))
